@@ -48,6 +48,10 @@ NAMES = {"btc": "m/44'/0'/0'/0/0", "rsk": "m/44'/137'/0'/0/0", "mst": "m/44'/137
          "tbtc": "m/44'/1'/0'/0/0", "trsk": "m/44'/1'/1'/0/0", "tmst": "m/44'/1'/2'/0/0"}
 
 
+STALE_TXT = "btc \t\t m/44'/0'/0'/0/0 \t\t 02" + "11" * 32 + "\n(output of an earlier run)\n"
+STALE_JSON = json.dumps({p: "04" + "22" * 64 for p in NAMES.values()}, indent=2) + "\n"
+
+
 def alnum(pin):
     return all((48 <= c <= 57) or (65 <= c <= 90) or (97 <= c <= 122) for c in pin)
 
@@ -303,9 +307,15 @@ class C18(Check):
                         for ne in ne_all:
                             for out in (True, False):
                                 for newpin in (("absent", "valid") if T else ("absent",)):
-                                    add(cmd="pubkeys", platform=plat, pin=pin, newpin=newpin,
-                                        anypin=anypin, nounlock=nu, noexec=ne, output=out, stream="a")
-        return cs
+                                    # stale: the output files already exist from an earlier run
+                                    for stale in ((False, True) if out else (False,)):
+                                        add(cmd="pubkeys", platform=plat, pin=pin, newpin=newpin,
+                                            anypin=anypin, nounlock=nu, noexec=ne, output=out,
+                                            stream="a", stale=stale)
+        # neighbouring configurations cost alike and the pool hands out runs of consecutive
+        # cases: deal them out with a stride so that the few heavy ones land on different workers
+        stride = 37
+        return [c for r in range(stride) for c in cs[r::stride]]
 
     # -- one execution ---------------------------------------------------------
     def argv(self, cfg, td):
@@ -328,6 +338,9 @@ class C18(Check):
     def execute(self, cfg, ctx):
         td = self.td
         td.clear()
+        if cfg.get("stale"):
+            td.write("out.txt", STALE_TXT)
+            td.write("out.json", STALE_JSON)
         dev = LazyDev(ctx, cfg, self.modes)
         w = World(dev)
         op = Operator(ctx, cfg, dev, w, self.stdin_menu)
@@ -629,6 +642,9 @@ class C18(Check):
         if cmd == "pubkeys":
             want_keys = dev.documented_pubkeys()
             txt, js = o["files"].get("out.txt"), o["files"].get("out.json")
+            # files left by an earlier run count as not written
+            txt = None if txt == STALE_TXT else txt
+            js = None if js == STALE_JSON else js
             in_signer = (dev.true_mode_byte() == MODE_SIGNER and dev.onboarded and
                          dims.get("mode") in ("bootloader", "signer"))
             if cfg["nounlock"]:
